@@ -589,6 +589,14 @@ PATTERN_EXAMPLES = {
     "^[\\U00020000-\\U0002A6DF\\u4E00-\\u9FFF]*$": ["", "\u4e00", "\U00020000", "\U00025000\u9fff", "\U0002A6DF"],
 }
 PATTERN_POOL = list(PATTERN_EXAMPLES)
+# a second jointly satisfiable family: all of these accept "\u00e4", "\u00f6\u00fc" and "\u00e4\u00f6\u00fc"
+# (values that NEED a non-ASCII character to be in the intersection)
+NON_ASCII_FAMILY = ["^[a-z\u00e4\u00f6\u00fc\u00df]+$", "^[^x]{1,3}$", "^.{1,8}$", "^[\\u00e0-\\u00ff]+$", "^(\u00e4|\u00f6|\u00fc)+$"]
+for _p in NON_ASCII_FAMILY:
+    PATTERN_EXAMPLES.setdefault(_p, ["a", "abc"] if _p == "^.{1,8}$" else [])
+    for _e in ["\u00e4", "\u00f6\u00fc", "\u00e4\u00f6\u00fc"]:
+        if _e not in PATTERN_EXAMPLES[_p]:
+            PATTERN_EXAMPLES[_p].append(_e)
 # all of these accept "c", "ac" and "abc"
 COMPATIBLE_PATTERNS = ["^[a-z\u00e4\u00f6\u00fc\u00df]+$", "^[a-z]+$", "^[a-zA-Z_][a-zA-Z0-9_]{0,5}$", "^[\\x20-\\x7e]*$", "^a?b*c+$", "^[^x]{1,3}$"]
 
@@ -691,7 +699,9 @@ def specs(draw: Any, opts: Opts = Opts()) -> Spec:
     if opts.fns:
         family = opts.compatible_patterns > 0 and draw(st.floats(0, 1)) < opts.compatible_patterns
         n_fns = draw(st.integers(2, 4)) if family else draw(st.integers(0, 3))
-        fam_pats = draw(st.permutations(COMPATIBLE_PATTERNS)) if family else []
+        fam_pats = []  # type: List[str]
+        if family:
+            fam_pats = list(draw(st.permutations(NON_ASCII_FAMILY if draw(st.integers(0, 2)) == 0 else COMPATIBLE_PATTERNS)))
         for i, nm in enumerate(_names(draw, ["matches_" + w for w in PROP_WORDS], ["", "_x"], n_fns, taken)):
             if family:
                 pat = fam_pats[i % len(fam_pats)]
